@@ -13,6 +13,7 @@ KIND_PROP = {
     'count_mismatch': 'C10',
     'rw_missing_eq': 'C04', 'probe_missing': 'C04', 'rw_unsound_eq': 'C05', 'unbound_var': 'C05', 'match_not_represented': 'C05', 'match_mutated': 'C05',
     'false_but_changed': 'C15', 'false_but_new': 'C15',
+    'extract_panic': 'C06', 'extract_not_member': 'C06', 'extract_cost_mismatch': 'C06', 'extract_not_cheapest': 'C06', 'extract_foreign_slot': 'C06',
 }
 
 _closure_cache = {}
@@ -140,6 +141,37 @@ def judge_record(tmpl, rec):
             for mt in em['matches']:
                 if sorted(mt['bound']) != want_vars: out.append(('unbound_var', k, [mt['bound'], want_vars]))
                 if not mt['found']: out.append(('match_not_represented', k, mt['binds']))
+        # extraction
+        xt = st.get('extract')
+        if xt:
+            qterm = O.apply_pattern(tuple_term(tmpl.ops[k - 1][1]), pat)
+            def tup(t): return tuple(tup(a) if isinstance(a, list) else a for a in t)
+            def names_of(t):
+                out = []
+                for a in t[1:]:
+                    if isinstance(a, list): out += names_of(a)
+                    else: out.append(a)
+                return out
+            if not xt['lookup_some'] or xt['lookup_eq'] is False: out.append(('extract_not_member', k, xt['term']))
+            # recompute the cost of the returned term independently
+            def cost_of(t):
+                w = 1 if O.WEIGHTS[xt['cf']] is None else O.WEIGHTS[xt['cf']][t[0]]
+                return w + sum(cost_of(a) for a in t[1:] if isinstance(a, list))
+            if cost_of(xt['term']) != xt['cost']: out.append(('extract_cost_mismatch', k, [xt['cost'], cost_of(xt['term'])]))
+            best = O.min_costs(C, xt['cf']).get(C.cls(qterm))
+            if best is not None and xt['cost'] != best: out.append(('extract_not_cheapest', k, [xt['cost'], best]))
+            # free slots: arguments of the query or brand-new; bound names are ignored by taking only names that are not binders
+            fn = set(str(_first_name_of_block(pat, b)) for b in O.free_names(qterm))
+            def free_of(t, bound=()):
+                sig = O.SIG[t[0]]; res = []; b = list(bound)
+                for kind, a in zip(sig, t[1:]):
+                    if kind == 'b': b.append(a)
+                    elif kind == 's':
+                        if a not in b: res.append(a)
+                    else: res += free_of(a, b)
+                return res
+            bad = [n for n in free_of(xt['term']) if n != 'fresh' and n not in fn]
+            if bad: out.append(('extract_foreign_slot', k, bad))
         # saturation flag
         if st.get('rewrite_ret') is False and prev is not None:
             pn = len(prev['canon'])
@@ -182,6 +214,8 @@ def judge_record(tmpl, rec):
         prev = st
     if rec.get('panic'):
         p = rec['panic']
+        failing = tmpl.ops[len(steps) - 1] if 0 < len(steps) <= len(tmpl.ops) else None
+        if failing is not None and failing[0] == 'extract': out.append(('extract_panic', len(steps), (p['msg'] if isinstance(p, dict) else p)))
         out.append(('panic', len(steps), (p['msg'] if isinstance(p, dict) else p)))
     return out
 
